@@ -46,11 +46,21 @@ int  vf_sched_exploring(void) { return S.exploring; }
 void vf_sched_free_run(int on) { S.free_run = on; }
 void vf_sched_silent(const void* lo, size_t len) { if (S.nsilent < 8) { S.silent[S.nsilent].lo = (uintptr_t)lo; S.silent[S.nsilent].hi = (uintptr_t)lo + len; S.nsilent++; } }
 
+/* This TU is never compiled with -fsanitize=thread, so the hand-offs below are invisible to ThreadSanitizer; in the
+ * free-running race pass (variant tsan) they are announced to it as release/acquire on the hand-off word, which makes the
+ * serial set-up and tear-down phases ordered with respect to the free-running phase between them. */
+__attribute__((weak)) void __tsan_acquire(void* addr);
+__attribute__((weak)) void __tsan_release(void* addr);
+/* (one synchronisation object per hand-off word: a single shared object would order a thread that happens to finish early
+   before a thread that is woken late, and hide their races) */
+static void ts_acq(volatile void* w) { if (__tsan_acquire) __tsan_acquire((void*)w); }
+static void ts_rel(volatile void* w) { if (__tsan_release) __tsan_release((void*)w); }
 static void fwait(volatile int* w) {
   while (__atomic_load_n(w, __ATOMIC_ACQUIRE) == 0) syscall(SYS_futex, w, FUTEX_WAIT, 0, NULL, NULL, 0);
   __atomic_store_n(w, 0, __ATOMIC_RELEASE);
+  ts_acq(w);
 }
-static void fwake(volatile int* w) { __atomic_store_n(w, 1, __ATOMIC_RELEASE); syscall(SYS_futex, w, FUTEX_WAKE, 1, NULL, NULL, 0); }
+static void fwake(volatile int* w) { ts_rel(w); __atomic_store_n(w, 1, __ATOMIC_RELEASE); syscall(SYS_futex, w, FUTEX_WAKE, 1, NULL, NULL, 0); }
 
 static void sched_fatal(int status, const char* msg) {
   if (S.tr) { S.tr->status = status; S.tr->done = 1; }
@@ -170,6 +180,21 @@ int vf_point(int kind, const volatile void* addr) {
   return choose(me, kind);
 }
 
+/* a point that is a choice point whatever the conflict set says: calls that change the address space conflict with the plain
+ * (uninstrumented) memory accesses of every other thread */
+int vf_point_always(int kind, const volatile void* addr) {
+  int me = vf_tid;
+  if (me < 0 || !S.exploring) return 0;
+  uintptr_t a = (uintptr_t)addr;
+  vf_trace_t* tr = S.tr;
+  if (++tr->npoints > S.horizon) sched_fatal(VF_ST_LIVELOCK, "horizon exceeded (livelock?)");
+  { uint64_t h = tr->sig; h ^= (uint64_t)a + ((uint64_t)kind << 56) + ((uint64_t)me << 60); h *= 0x100000001B3ULL; h ^= h >> 29; tr->sig = h; }
+  for (int i = 0; i < S.nthreads; i++) if (i != me) { S.t[i].yielded = 0; S.t[i].spins = 0; }
+  (void)tab_access(a, me, 1);
+  tr->nshared_points++;
+  return choose(me, kind);
+}
+
 /* mi_atomic_yield() is a CPU pause, not a hand-over: the spinning thread may well keep running while the thread it waits
  * for is descheduled. So the first VF_FREE_SPINS consecutive yields of a thread are ordinary choice points (default:
  * keep running; switching counts as a preemption). Only after that the thread is deprioritised until somebody else has taken a step,
@@ -237,8 +262,8 @@ int vf_mutex_unlock(pthread_mutex_t* m) {
 
 /* ---------------- thread life cycle -------------------------------------------------------------- */
 static void thread_finish(int me) {
+  if (S.free_run) { ts_rel(&S.t[me].state); __atomic_store_n(&S.t[me].state, T_FINISHED, __ATOMIC_RELEASE); return; }
   S.t[me].state = T_FINISHED;
-  if (S.free_run) return;
   int next = pick_other(me, VF_OP);
   if (next >= 0) { fwake(&S.t[next].go); return; }
   for (int i = 0; i < S.nthreads; i++) if (S.t[i].state == T_BLOCKED) sched_fatal(VF_ST_DEADLOCK, "deadlock: remaining threads are blocked on a lock");
@@ -274,7 +299,8 @@ int vf_sched_execute(const vf_prog_t* prog, const uint8_t* prefix, int prefix_le
   if (S.free_run) {
     for (int i = 0; i < S.nthreads; i++) fwake(&S.t[i].go);                                /* all at once, no token */
     for (int i = 0; i < S.nthreads; i++) { /* each finishing thread wakes ctl once all are finished: emulate by polling */ }
-    for (;;) { int all = 1; for (int i = 0; i < S.nthreads; i++) if (S.t[i].state != T_FINISHED) all = 0; if (all) break; usleep(50); }
+    for (;;) { int all = 1; for (int i = 0; i < S.nthreads; i++) if (__atomic_load_n(&S.t[i].state, __ATOMIC_ACQUIRE) != T_FINISHED) all = 0; if (all) break; usleep(50); }
+    for (int i = 0; i < S.nthreads; i++) ts_acq(&S.t[i].state);
   } else {
     S.exploring = 1;
     int first = 0;
